@@ -516,6 +516,12 @@ class HostConnection(object):
             log.warning("Failed reconnecting %s. Retrying." % (self.host.endpoint,))
             self._session.submit(self._replace, connection)
         else:
+            with self._lock:
+                if self.is_shutdown:
+                    # the pool was shut down while the new connection was being opened
+                    self._connection = None
+                    conn.close()
+                    return
             with connection.lock:
                 with self._lock:
                     if connection.orphaned_threshold_reached:
